@@ -14,6 +14,7 @@ R16.7  mandatory columns of the plain re-serialiser are the parsed ones in schem
 from __future__ import annotations
 
 import ast
+import re
 
 from ..core import AnalysisError, const_value, norm, walk_own, walk_stmts, names_in
 from ..paths import enum_paths, canon_test
@@ -332,6 +333,22 @@ def r16_3_6(ctx, pf, loop, info):
     ctx.holds("R16.6", pf.where(loop), f"every well-formed field other than ds:Z: that is not yet present is stored on every path ({n_worlds} key/presence worlds x {len(paths)} paths)")
 
 
+def _is_tag_copy(e, base, rec, extras):
+    """`dict(base)`, `base.copy()`, `{**base}`, optionally with the CIGAR key overridden by the record's CIGAR."""
+    t = norm(e)
+    if t in (f"dict({base})", f"{base}.copy()", f"{{**{base}}}", f"copy.copy({base})", f"copy({base})"):
+        return True
+    if isinstance(e, ast.Dict) and e.keys and e.keys[0] is None and norm(e.values[0]) == base:
+        return "override" if len(e.keys) > 1 and all(k is not None and isinstance(k, ast.Constant) and k.value == "cg:Z:" and norm(v) == f"{rec}.{extras['cigar_attr']}" for k, v in list(zip(e.keys, e.values))[1:]) else len(e.keys) == 1
+    return False
+
+
+def _merge_sep(opaque_body, elt_parts):
+    """Body of a filtered comprehension repetition: the separator literal(s) kept by the join + the element template."""
+    seps = [x for x in opaque_body if x[0] == "lit"]
+    return tmpl._merge(seps + list(elt_parts))
+
+
 def r16_4(ctx, f, rec, n, extras, schema, key_colon):
     tags_attr = extras["tags_attr"]
     st, var, handle, region, out = emit.templates_of(ctx, f, rec, n, tags_attr, "R16.4")
@@ -352,10 +369,36 @@ def r16_4(ctx, f, rec, n, extras, schema, key_colon):
             continue
         r = reps[0]
         loop = r[2]
+        if loop is None:
+            raise AnalysisError("R16.4", where, f"the repetition over the tags is not a loop or comprehension this rule can read ({tmpl.show(r[1])[:60]})")
         it = norm(loop.iter)
         base = f"{rec}.{tags_attr}"
+        # an order-preserving copy of the mapping (possibly with the CIGAR entry overridden, as the in-place writer does)
+        m_it = re.fullmatch(r"(\w+)(\.keys\(\)|\.items\(\))?", it)
+        if m_it and m_it.group(1) not in f.params:
+            defs = [s_.value for s_ in walk_stmts(f.node.body) if isinstance(s_, ast.Assign) and len(s_.targets) == 1 and norm(s_.targets[0]) == m_it.group(1)]
+            kind = _is_tag_copy(defs[0], base, rec, extras) if len(defs) == 1 else False
+            if kind == "override" and not getattr(loop, "gv_filters", None):
+                raise AnalysisError("R16.4", f.where(loop), "the copy of the tag mapping always carries a CIGAR entry: cannot decide what is written for a record without CIGAR")
+            if kind:
+                it = base + (m_it.group(2) or "")
+            else:
+                raise AnalysisError("R16.4", f.where(loop), f"the writer iterates the local `{m_it.group(1)}` whose relation to {base} is not a recognised copy")
         ctx.check(it in (base, base + ".keys()", base + ".items()"), "R16.4", f.where(loop), "the writer iterates the tag mapping itself (insertion order = input order)", key_of(f, f"tag-iter:{it}"), iter=it)
         body = r[1]
+        filters = getattr(loop, "gv_filters", None)
+        if filters:
+            body = _merge_sep(body, loop.gv_elt)
+            tv = [norm(e) for e in (loop.target.elts if isinstance(loop.target, ast.Tuple) else [loop.target])]
+            vnames = {f"{base}[{tv[0]}]", f"{norm(loop.iter.func.value) if isinstance(loop.iter, ast.Call) and isinstance(loop.iter.func, ast.Attribute) else norm(loop.iter)}[{tv[0]}]"} | ({tv[1]} if len(tv) > 1 else set())
+            for flt in filters:
+                t = norm(flt)
+                if t in (f'{tv[0]} != "ds:Z:"', f"{tv[0]} != 'ds:Z:'", f"not {tv[0]}.startswith('ds:Z:')"):
+                    continue
+                if any(t in (v_, f"{v_} != ''", f"len({v_}) > 0", f"len({v_})", f"bool({v_})", f"{v_} is not None and {v_}") for v_ in vnames):
+                    ctx.violated("R16.4", f.where(loop), f"the writer skips every field whose value is empty (`if {t}`): a well-formed field such as `co:Z:` with an empty string is not reproduced", key_of(f, f"tag-filter:{t}"))
+                else:
+                    raise AnalysisError("R16.4", f.where(loop), f"the writer filters the fields with `{t}`: cannot decide which well-formed fields it drops")
         kvars = [norm(e) for e in (loop.target.elts if isinstance(loop.target, ast.Tuple) else [loop.target])]
         k = kvars[0]
         vals = {f"{base}[{k}]"} | ({kvars[1]} if len(kvars) > 1 else set())
